@@ -1,4 +1,5 @@
 import TracklibVerif.Lemmas.DTWTable
+import TracklibVerif.Lemmas.FDTW
 import Mathlib.Algebra.Order.Field.Basic
 import Mathlib.Tactic.Ring
 import Mathlib.Algebra.Order.Ring.Rat
@@ -67,39 +68,8 @@ theorem path_valid (sqrt : α → α) (w : α → α → α) (dim : Nat)
   obtain ⟨rows, he, hl, hp⟩ := dtw_spec sqrt w dim t1 t2 h1 h2
   have hbp := walkF_backPath w 0 (Dmat sqrt dim t1 t2) (t1.length + t2.length) (t2.length - 1) (t1.length - 1) (by omega)
   have hhd := walkF_head w 0 (Dmat sqrt dim t1 t2) (t1.length + t2.length) (t2.length - 1, t1.length - 1)
-  have hb := backPath_bounds _ _ _ hbp hhd
-  have hc := backPath_covers _ _ _ hbp hhd
-  have hrow : ∀ j, j < t1.length → ∃ r, rows[j]? = some r ∧
-      (∀ i, i ∈ r.pair ↔ (i, j) ∈ walkF w 0 (Dmat sqrt dim t1 t2) (t1.length + t2.length) (t2.length - 1, t1.length - 1)) := by
-    intro j hj
-    have hpj := hp j hj
-    have hjr : j < rows.length := by omega
-    refine ⟨rows[j], List.getElem?_eq_getElem hjr, ?_⟩
-    rw [List.getElem?_eq_getElem hjr] at hpj
-    simp only [Option.map_some, Option.some.injEq] at hpj
-    intro i
-    rw [hpj]
-    unfold partners
-    simp only [List.mem_map, List.mem_filter, List.mem_reverse, beq_iff_eq]
-    constructor
-    · rintro ⟨⟨a, b⟩, ⟨hm, hb'⟩, ha⟩
-      simp only at hb' ha
-      subst hb'; subst ha; exact hm
-    · intro hm; exact ⟨(i, j), ⟨hm, rfl⟩, rfl⟩
-  refine ⟨_, he, ⟨hbp, hhd⟩, rfl, hl, fun s hs => by have := hb s hs; omega, ?_, ?_⟩
-  · intro j hj
-    obtain ⟨r, hr, hmem⟩ := hrow j hj
-    refine ⟨r, hr, hmem, ?_⟩
-    obtain ⟨a, ha⟩ := hc.2 j (by omega)
-    intro hnil
-    have := (hmem a).mpr ha
-    rw [hnil] at this
-    simp at this
-  · intro i hi
-    obtain ⟨b, hb'⟩ := hc.1 i (by omega)
-    have hbj : b < t1.length := by have := hb _ hb'; simp only at this; omega
-    obtain ⟨r, hr, hmem⟩ := hrow b hbj
-    exact ⟨b, r, hr, (hmem i).mpr hb'⟩
+  obtain ⟨r1, r2, r3⟩ := rows_pairs _ t1.length t2.length rows hbp hhd h1 h2 hl hp
+  exact ⟨_, he, ⟨hbp, hhd⟩, rfl, hl, r1, r2, r3⟩
 
 /-- T4 `path_realises`: the accumulated cost of the returned coupling equals the reported score. This is where the
 predecessor encoding matters: each back-pointer designates a *minimal* predecessor (`T_pred`; false before 42f835b). -/
@@ -108,6 +78,41 @@ theorem path_realises (sqrt : α → α) (w : α → α → α) (dim : Nat)
     ∃ out, dtw sqrt w dim t1 t2 = some out ∧ costBack w 0 (Dmat sqrt dim t1 t2) out.S = out.score := by
   obtain ⟨rows, he, _, _⟩ := dtw_spec sqrt w dim t1 t2 h1 h2
   exact ⟨_, he, walkF_cost w 0 _ (t1.length + t2.length) (t2.length - 1) (t1.length - 1) (by omega)⟩
+
+/-- T5 `fdtw_equal`: the fast variant `_fdtw` (best-first search with `priority_dict`) reports the same score as
+`_dtw`, for every accumulation that is monotone in the accumulated cost and inflationary on the distances at hand
+(`a ≤ w a d`: true for `a + d^p` with `d ≥ 0` and for `max`), `big` (the 1e300 placeholder priority) being above every
+candidate cost. The queue is only assumed to return *an* entry of least priority (ties between keys are irrelevant). -/
+theorem fdtw_equal (sqrt : α → α) (big : α) (w : α → α → α) (dim : Nat) (t1 t2 : List (Pt α))
+    (h1 : 0 < t1.length) (h2 : 0 < t2.length)
+    (hw : ∀ a b d, a ≤ b → w a d ≤ w b d)
+    (hinf : ∀ a i j, i < t2.length → j < t1.length → a ≤ w a (Dmat sqrt dim t1 t2 i j))
+    (hbig : ∀ i j i' j', i < t2.length → j < t1.length → i' < t2.length → j' < t1.length →
+      w (T w 0 (Dmat sqrt dim t1 t2) i j) (Dmat sqrt dim t1 t2 i' j') < big) :
+    ∃ od ofast, dtw sqrt w dim t1 t2 = some od ∧ fdtw sqrt big w dim t1 t2 = some ofast ∧ ofast.score = od.score := by
+  obtain ⟨rows, he, _, _⟩ := dtw_spec sqrt w dim t1 t2 h1 h2
+  obtain ⟨S, rows', he', _⟩ := fdtw_spec sqrt big w dim t1 t2 h1 h2 hw hinf hbig
+  exact ⟨_, _, he, he', rfl⟩
+
+/-- T5b `fdtw_path`: the matching returned by the fast variant is also a monotone unit-step coupling from the last pair
+to `(0,0)` (walk through the antecedent map `A`), its accumulated cost is the reported score, `nb_links` and the `pair`
+feature describe it, and nobody is left out. -/
+theorem fdtw_path (sqrt : α → α) (big : α) (w : α → α → α) (dim : Nat) (t1 t2 : List (Pt α))
+    (h1 : 0 < t1.length) (h2 : 0 < t2.length)
+    (hw : ∀ a b d, a ≤ b → w a d ≤ w b d)
+    (hinf : ∀ a i j, i < t2.length → j < t1.length → a ≤ w a (Dmat sqrt dim t1 t2 i j))
+    (hbig : ∀ i j i' j', i < t2.length → j < t1.length → i' < t2.length → j' < t1.length →
+      w (T w 0 (Dmat sqrt dim t1 t2) i j) (Dmat sqrt dim t1 t2 i' j') < big) :
+    ∃ out, fdtw sqrt big w dim t1 t2 = some out ∧
+      IsCouplingOf t1.length t2.length out.S ∧
+      costBack w 0 (Dmat sqrt dim t1 t2) out.S = out.score ∧
+      out.nbLinks = out.S.length ∧ out.rows.length = t1.length ∧
+      (∀ s ∈ out.S, s.1 < t2.length ∧ s.2 < t1.length) ∧
+      (∀ j, j < t1.length → ∃ r : Row α, out.rows[j]? = some r ∧ (∀ i, i ∈ r.pair ↔ (i, j) ∈ out.S) ∧ r.pair ≠ []) ∧
+      (∀ i, i < t2.length → ∃ (j : Nat) (r : Row α), out.rows[j]? = some r ∧ i ∈ r.pair) := by
+  obtain ⟨S, rows, he, hbp, hhd, hcost, hl, hp⟩ := fdtw_spec sqrt big w dim t1 t2 h1 h2 hw hinf hbig
+  obtain ⟨r1, r2, r3⟩ := rows_pairs S t1.length t2.length rows hbp hhd h1 h2 hl hp
+  exact ⟨_, he, ⟨hbp, hhd⟩, hcost, rfl, hl, r1, r2, r3⟩
 
 end generic
 
@@ -192,6 +197,61 @@ theorem match_correct (sqrt : α → α) (big : α) (mode : Mode) (hm : mode ≠
   cases Option.some.inj e12
   exact ⟨out, o21, hmt t1 t2 h1 out he, hmt t2 t1 h2 o21 e21, hlow, hcoup, hcost, hnb, hrows, hcov, hsym.symm⟩
 
+/-- `_distance` is non-negative when `sqrt` is -/
+theorem distance_nonneg (sqrt : α → α) (hsqrt : ∀ x, 0 ≤ sqrt x) (dim : Nat) (p q : Pt α) :
+    0 ≤ distance sqrt dim p q := by
+  unfold distance
+  by_cases h1 : dim = 1
+  · simp only [h1, if_true]
+    by_cases h : p.z - q.z < 0
+    · simp only [h, if_true]
+      have : (0 : α) - (p.z - q.z) = -(p.z - q.z) := by ring
+      rw [this]; exact le_of_lt (neg_pos.mpr h)
+    · simp only [h, if_false]; exact not_lt.mp h
+  · simp only [h1, if_false]
+    by_cases h2 : dim = 2
+    · simp only [h2, if_true]; exact hsqrt _
+    · simp only [h2, if_false]; exact hsqrt _
+
+/-- `_p2weight(p)` is inflationary on non-negative distances -/
+theorem weight_infl (p : PNorm) (a d : α) (hd : 0 ≤ d) : a ≤ weight p a d := by
+  cases p with
+  | one => exact le_add_of_nonneg_right hd
+  | two => exact le_add_of_nonneg_right (mul_self_nonneg d)
+  | inf =>
+    simp only [weight, pmax]
+    by_cases h : a < d
+    · simp only [h, if_true]; exact le_of_lt h
+    · simp only [h, if_false]; exact le_rfl
+
+/-- **C18 for the fast variant, `match(track1, track2, mode = FDTW, p, dim)`**: for every pair of non-empty tracks,
+`p ∈ {1, 2, inf}`, `dim ∈ {1, 2, 3}`, a non-negative `sqrt`, and `big` (1e300 in the code) above every candidate cost:
+the call succeeds and reports **the same score as `mode = DTW`**; the returned `S` is a monotone unit-step coupling
+from the first to the last pair whose accumulated cost is that score; `nb_links` and the `pair` feature describe it and
+no observation of either track is left out. -/
+theorem match_fdtw_correct (sqrt : α → α) (hsqrt : ∀ x, 0 ≤ sqrt x) (big : α) (p : PNorm) (dim : Nat)
+    (t1 t2 : List (Pt α)) (h1 : 0 < t1.length) (h2 : 0 < t2.length)
+    (hbig : ∀ i j i' j', i < t2.length → j < t1.length → i' < t2.length → j' < t1.length →
+      weight p (T (weight p) 0 (Dmat sqrt dim t1 t2) i j) (Dmat sqrt dim t1 t2 i' j') < big) :
+    ∃ out outd, matchTracks sqrt big Mode.fdtw p dim t1 t2 = .ok out ∧ matchTracks sqrt big Mode.dtw p dim t1 t2 = .ok outd ∧
+      out.score = outd.score ∧
+      IsCouplingOf t1.length t2.length out.S ∧
+      costBack (weight p) 0 (Dmat sqrt dim t1 t2) out.S = out.score ∧
+      out.nbLinks = out.S.length ∧
+      (∀ j, j < t1.length → ∃ r : Row α, out.rows[j]? = some r ∧ (∀ i, i ∈ r.pair ↔ (i, j) ∈ out.S) ∧ r.pair ≠ []) ∧
+      (∀ i, i < t2.length → ∃ (j : Nat) (r : Row α), out.rows[j]? = some r ∧ i ∈ r.pair) := by
+  have hw : ∀ a b d : α, a ≤ b → weight p a d ≤ weight p b d := fun a b d h => weight_mono p a b d h
+  have hinf : ∀ (a : α) i j, i < t2.length → j < t1.length → a ≤ weight p a (Dmat sqrt dim t1 t2 i j) :=
+    fun a i j _ _ => weight_infl p a _ (distance_nonneg sqrt hsqrt dim _ _)
+  obtain ⟨od, ofast, e1, e2, hs⟩ := fdtw_equal sqrt big (weight p) dim t1 t2 h1 h2 hw hinf hbig
+  obtain ⟨out, e3, hc, hcost, hnb, _, _, hr, hcov⟩ := fdtw_path sqrt big (weight p) dim t1 t2 h1 h2 hw hinf hbig
+  rw [e2] at e3
+  cases Option.some.inj e3
+  have hne : t1.isEmpty = false := by cases t1 with | nil => simp at h1 | cons _ _ => rfl
+  refine ⟨ofast, od, ?_, ?_, hs, hc, hcost, hnb, hr, hcov⟩
+  · unfold matchTracks; simp [hne, e2]
+  · unfold matchTracks; simp [hne, e1]
+
 end field
 
 /-! ### the hypotheses are satisfiable; a concrete run of the model (the D14 witness, in dimension 1) -/
@@ -204,5 +264,11 @@ example :
     (dtw (α := Int) id (weight PNorm.one) 1 [⟨0, 0, 0⟩, ⟨0, 0, 1⟩, ⟨0, 0, 0⟩] [⟨0, 0, 1⟩, ⟨0, 0, 0⟩, ⟨0, 0, 1⟩]).map
       (fun o => (o.score, o.S, o.rows.map (·.pair), o.nbLinks))
     = some (2, [(2, 2), (2, 1), (1, 0), (0, 0)], [[0, 1], [2], [2]], 4) := by decide
+
+/-- the fast variant on the same input (`big = 1000`): same score 2, a different optimal coupling. -/
+example :
+    (fdtw (α := Int) id 1000 (weight PNorm.one) 1 [⟨0, 0, 0⟩, ⟨0, 0, 1⟩, ⟨0, 0, 0⟩] [⟨0, 0, 1⟩, ⟨0, 0, 0⟩, ⟨0, 0, 1⟩]).map
+      (fun o => (o.score, o.rows.map (·.pair), o.nbLinks))
+    = some (2, [[0], [0], [1, 2]], 4) := by decide +kernel
 
 end TV.C18
